@@ -490,6 +490,9 @@ def make_dict_structure_fn_from_attrs(
                     f"  except Exception as exc: raise __c_cve('While structuring ' + {cl_name!r}, [exc], __cl)"
                 ]
             )
+            pi_lines.append(
+                f"  if errors: raise __c_cve('While structuring ' + {cl_name!r}, errors, __cl)"
+            )
             pi_lines.append("  return instance")
     else:
         non_required = []
